@@ -442,6 +442,113 @@ func c05Merge(r *vx.Rand) {
 	}
 }
 
+// c05CommittedPrimary: a writer W whose PRIMARY is committed below the snapshot ts died before committing its secondaries,
+// which lie in several regions (a second writer may be complete or dead earlier).  One long-lived snapshot object first
+// meets ONE of W's secondary locks (point get, single-key batch get, or a scan limited to one pair: the resolver learns that
+// W is committed and resolves only what it met), then reads the other keys — batch get over all regions through both
+// batch-get implementations, forward / reverse / key-only scans with small batches, point gets — and every read must show
+// W's values.
+func c05CommittedPrimary(r *vx.Rand) {
+	pool := keyPool
+	layout := pick(r, layoutsOf(3))
+	if r.Chance(25) {
+		layout = pick(r, layoutsOf(2))
+	}
+	if r.Chance(30) {
+		pool = c05WidePool
+		layout = [][]byte{{0x63}, {0x65}, {0x67}}
+	}
+	w := hub.NewWorld(rec, hub.Options{Full: lean, Seed: r.U64(), Splits: layout})
+	defer w.Close()
+	for _, k := range pool {
+		w.TrackKey(k)
+	}
+	if !seed(w, subset(r, pool, 60)) {
+		return
+	}
+	// W's keys: at least three, usually most of the pool
+	wk := subset(r, pool, 75)
+	for len(wk) < 3 {
+		wk = subset(r, pool, 75)
+	}
+	c05Writer(w, "w1", wk, "primary-only", 1, r)
+	if w.Hung() {
+		return
+	}
+	if r.Chance(30) {
+		var rest [][]byte
+		for _, k := range pool {
+			in := false
+			for _, x := range wk {
+				in = in || bytes.Equal(x, k)
+			}
+			if !in {
+				rest = append(rest, k)
+			}
+		}
+		if len(rest) > 0 {
+			c05Writer(w, "w2", rest, pick(r, []string{"complete", "primary-only", "pending"}), 2, r)
+			if w.Hung() {
+				return
+			}
+		}
+	}
+	rd := w.NewClient("r")
+	snapTS := rd.CurrentTS()
+	if r.Chance(40) {
+		w.AdvanceClock(60000)
+	}
+	snap := rd.Snapshot(snapTS, 2+r.Intn(3), r.Chance(20))
+	first := pick(r, wk)
+	ok := runAll(w, scenarioTimeout, func() {
+		// the first contact: one key
+		switch r.Intn(3) {
+		case 0:
+			snap.Get(first)
+		case 1:
+			snap.BGet([][]byte{first}, "async=0")
+		default:
+			snap.Iter(first, nil, 1)
+		}
+		for i := 2 + r.Intn(4); i > 0; i-- {
+			switch r.Intn(6) {
+			case 0, 1:
+				async := r.Chance(70)
+				restore := config.UpdateGlobal(func(c *config.Config) { c.EnableAsyncBatchGet = async })
+				snap.BGet(pool, "async="+map[bool]string{false: "0", true: "1"}[async])
+				restore()
+				rec.Count("c05:path:bget")
+			case 2:
+				snap.Iter(nil, nil, 0)
+				rec.Count("c05:path:iter")
+			case 3:
+				snap.RIter(nil, nil, 0)
+				rec.Count("c05:path:riter")
+			case 4:
+				a, b := pick(r, pool), pick(r, pool)
+				if bytes.Compare(a, b) > 0 {
+					a, b = b, a
+				}
+				if r.Bool() {
+					snap.Iter(a, nil, r.Intn(4))
+				} else {
+					snap.RIter(nil, b, r.Intn(4))
+				}
+			default:
+				for _, k := range pool {
+					if r.Chance(70) {
+						snap.Get(k)
+					}
+				}
+				rec.Count("c05:path:get")
+			}
+		}
+	})
+	if ok {
+		w.Quiesce(scenarioTimeout)
+	}
+}
+
 // c05BigBatchGet: ONE BatchGet of more keys than fit one request (batchGetSize = 5120), all in one region or with more than
 // that many in one of two regions; compared with Iter at the same timestamp.  A few large transactions write the keys.
 func c05BigBatchGet(twoRegions bool, r *vx.Rand) {
@@ -500,6 +607,9 @@ func runC05() {
 		case i%5 == 3:
 			c05Repin(rnd.Fork())
 			rec.Count("c05:family:repin")
+		case i%10 == 1:
+			c05CommittedPrimary(rnd.Fork())
+			rec.Count("c05:family:committed-primary")
 		case i%5 == 4:
 			c05Merge(rnd.Fork())
 			rec.Count("c05:family:merge")
